@@ -56,7 +56,7 @@ def run(op, a):
             der = k.sign(h)
             if short:
                 for _ in range(300):
-                    if len(der) < 70:
+                    if len(der) < 8 or der[3] < 32 or der[5 + der[3]] < 32:
                         break
                     der = k.sign(h)
             sigs.append(der + bytes([ht]))
